@@ -4,7 +4,7 @@ import os
 
 from vlib import REPO, cw
 
-ASCII_DRAW = "-|+/\\.,'`()_*oO#<>^vV=~:!xX"
+ASCII_DRAW = "-|+/\\.,'`()_*oO#<>^vV=~:!xX\u2019"
 UNI_DRAW = "─│┌┐└┘├┤┬┴┼╭╮╯╰╱╲╳═║▲▼◀▶┄┊"
 UNI_MORE = "¯–—‾∠≠⊕⋀⌊┆╎╒╓╔╕╖╗╘╙╚╛╜╝╞╟╠╡╢╣╤╥╦╧╨╩╪╫╬▁▂▃▄▅▆▇█▏▕□▪△▴▸►▾◂◄◆○●◜◝◞◟⤹⦵￮"
 # letters and digits without a drawing meaning
